@@ -38,6 +38,8 @@ def check(ctx):
     for tu in ctx.tus:
         info = TUInfo(tu)
         run_slot_rules(ctx, 'C06.O', 'C06.O', tu, only_kinds=('O-', 'P-into', 'P-swap'))
+        from .c05 import check_takes
+        check_takes(ctx, tu, info, rule='C06.X', only_dest=True)      # a batch taken into a data member is shared by all consumer threads
         ma = MoveAnalysis(tu)
         for f in tu.fns:
             if queue_of(f) and f.outermost().name in ('processIf', 'processUntil', 'process', 'processOne', 'peekEvent', 'doInvokeFuncWithQueuedEvent',
